@@ -347,6 +347,68 @@ def fine_scan_stream(ctx, rng):
             return
 
 
+def undeclared_params_stream(ctx, rng, only=None):
+    """library blocks inside a solver (one and two levels), solved again and again with calls that change one parameter at a
+    time - among them parameters the block *reads without declaring* (wl of FPR / CWA, the extra keywords of a user index
+    function): every call must equal the same call on a fresh build (a matrix kept from the previous solve is a trace)"""
+    L = impl.lk()
+    facs = dict(c04.block_factories())
+
+    def uw_index(wl, T=0.0, **kw):
+        return 1.5 + 0.01 * wl + 0.001 * T
+    facs["UserWaveguide-undeclared"] = (lambda: L.UserWaveguide(L=7.0, func=uw_index), {"wl": (1.5, 1.6), "T": (0.0, 50.0)})
+    for name, (factory, params) in facs.items():
+        if name == "FPRGaussian" or (only is not None and name != only):
+            continue
+        required = c04.REQUIRED.get(name, []) + (["wl"] if name == "UserWaveguide-undeclared" else [])
+        for depth in (1, 2):
+            def build():
+                sol = L.Solver(name="w1")
+                with sol:
+                    factory().put()
+                    L.raise_pins()
+                if depth == 2:
+                    top = L.Solver(name="w2")
+                    with top:
+                        sol.put()
+                        L.raise_pins()
+                    return top
+                return sol
+            try:
+                used = build()
+            except Exception as e:  # noqa
+                ctx.tag(f"skipped:build-{type(e).__name__}")
+                continue
+            names = list(params)
+            cur = {k: lo + rng.random() * (hi - lo) for k, (lo, hi) in params.items()}
+            calls = []
+            for step in range(6):
+                k = rng.choice(names)                                   # change exactly one parameter per call
+                lo, hi = params[k]
+                cur = dict(cur)
+                cur[k] = lo + rng.random() * (hi - lo)
+                kw = {n: v for n, v in cur.items() if n in required or n == k or rng.random() < 0.8}
+                if step >= 4:                                           # equal-length sweeps that differ in one column
+                    kw = {n: np.array([v, v + 0.01 * (params[n][1] - params[n][0]), v]) if n == k else v for n, v in kw.items()}
+                calls.append(kw)
+            for j, kw in enumerate(calls):
+                rep = {"kind": "undeclared", "block": name, "depth": depth,
+                       "calls": [{n: (np.asarray(v).tolist()) for n, v in c.items()} for c in calls[:j + 1]]}
+                ctx.case(("undeclared", name, depth, j, repr(sorted(rep["calls"][-1].items()))), tags=["stream:undeclared-params"])
+
+                def attempt(obj):
+                    try:
+                        return "ok", np.array(obj.solve(**kw).S)
+                    except Exception as e:  # noqa
+                        return type(e).__name__, None
+                got, ref = attempt(used), attempt(build())
+                if got[0] != ref[0] or (got[0] == "ok" and (got[1].shape != ref[1].shape or np.max(np.abs(got[1] - ref[1])) > 1e-9)):
+                    ctx.violation("C06:history-dependent", f"{name} in a solver ({depth} level{'s' if depth > 1 else ''}): call #{j} solve({sorted(kw)}) gives "
+                                  f"{got[0]}{'' if got[0] != 'ok' or ref[0] != 'ok' else ' with a different matrix'}, a fresh build gives {ref[0]} "
+                                  f"(earlier calls changed one parameter at a time)", rep)
+                    break
+
+
 def gen_kw(rng):
     r = rng.random()
     if r < 0.2:
@@ -384,6 +446,7 @@ def run(ctx):
     block_results_stream(ctx, rng)
     fine_scan_stream(ctx, rng)
     leftover_params_stream(ctx, rng)
+    undeclared_params_stream(ctx, ctx.subrng("c06-undeclared"))
     n = ctx.budget(250, 1500)
     maxs = 8 if ctx.tier == "quick" else 14
     for i in range(n):
@@ -436,6 +499,11 @@ def replay(ctx, data):
         if ctx.violations:
             return False, ctx.violations[0]["what"]
         return True, "bare blocks keep no trace of earlier or failed solves"
+    if data.get("kind") == "undeclared":
+        undeclared_params_stream(ctx, ctx.subrng("c06-undeclared"))
+        if ctx.violations:
+            return False, ctx.violations[0]["what"]
+        return True, "library blocks inside solvers keep no matrix from an earlier solve"
     if data.get("kind") == "fine-scan":
         fine_scan_stream(ctx, ctx.subrng("c06"))
         if ctx.violations:
